@@ -222,13 +222,111 @@ def run(ctx, rep) -> None:
             rep.ok("C10.R5", f"a duplicate {msg} is absorbed", f"decided by C04 (claim CAS on NOT_STARTED) and C02.R2; {n} effectful commits seen here", fi.file, fn.lineno)
 
     # ---- R6 -------------------------------------------------------------------------------------
+    from ..statuspred import status_set
+    # reference: the condition under which the healthy run pushes StartTask(first task) for a stage with before-stages
+    cps = prog.func("stabilize.handlers.continue_parent_stage", "ContinueParentStageHandler._handle_before_phase").node
+    ref = None
+    for a in ast.walk(cps):
+        if isinstance(a, ast.Assign) and norm(a.targets[0]) == "all_complete" and isinstance(a.value, ast.Call) and norm(a.value.func) == "all" and a.value.args and isinstance(a.value.args[0], ast.GeneratorExp):
+            g = a.value.args[0]
+            ref = status_set(g.elt, norm(g.generators[0].target) + ".status", T)
+    if ref is None:
+        raise AnalysisError("ContinueParentStage._handle_before_phase: `all_complete = all(<status predicate> for s in before_stages)` not found")
+    rcls = prog.cls(REC, "WorkflowRecovery")
     for c in ast.walk(fn):
         if isinstance(c, ast.Call) and isinstance(c.func, ast.Name) and c.func.id == "StartTask":
-            doms = dominating_tests(fn, _stmt_of(fn, c))
-            mentions = [d for d in doms if "before_stages" in d[0] or "_before_stages_complete" in d[0] or "before" in d[0].lower()]
-            rep.check(bool(mentions), "C10.R6", "StartTask(first task) is re-queued only once the stage's before-stages are complete",
-                      f"dominated by {mentions[0]}" if mentions else "the branch `stage RUNNING, no RUNNING task, start_time set` also describes a parent whose before-stages are still executing: a sweep at that moment of a healthy run starts the parent's first task ahead of its before-stages "
-                      "(ContinueParentStage pushes that StartTask only when all before-stages are continuable)", fi.file, c.lineno, disc="starttask-before-stages")
+            doms = dominating_tests_raw(fn, _stmt_of(fn, c))
+            # candidate atoms: calls of a recovery helper whose result is all(<pred> for child in ... STAGE_BEFORE ...)
+            found = None
+            for test, _truth in doms:
+                for call in [x for x in ast.walk(test) if isinstance(x, ast.Call) and isinstance(x.func, ast.Attribute) and isinstance(x.func.value, ast.Name) and x.func.value.id == "self"]:
+                    helper = prog.find_method(rcls, call.func.attr)
+                    if helper is None:
+                        continue
+                    rets = [r for r in ast.walk(helper.node) if isinstance(r, ast.Return) and r.value is not None]
+                    for r in rets:
+                        v = r.value
+                        if isinstance(v, ast.Call) and norm(v.func) == "all" and v.args and isinstance(v.args[0], ast.GeneratorExp):
+                            g = v.args[0]
+                            filt = " and ".join(norm(i) for i in g.generators[0].ifs)
+                            if "STAGE_BEFORE" in filt and "parent_stage_id" in filt:
+                                found = (norm(call), status_set(g.elt, norm(g.generators[0].target) + ".status", T), helper)
+            if found is None:
+                rep.fail("C10.R6", "StartTask(first task) is re-queued only once the stage's before-stages are complete",
+                         "the branch `stage RUNNING, no RUNNING task, start_time set` also describes a parent whose before-stages are still executing: a sweep at that moment of a healthy run starts the parent's first task ahead of its before-stages "
+                         "(ContinueParentStage pushes that StartTask only when all before-stages are continuable)", fi.file, c.lineno, disc="starttask-before-stages")
+                continue
+            atom, pset, helper = found
+            implied = _implied_true(doms, atom)
+            rep.check(implied, "C10.R6", "StartTask(first task) is re-queued only once the stage's before-stages are complete", f"every way of reaching the StartTask has `{atom}` true" if implied else
+                      f"`{atom}` is tested but does not have to be true where StartTask is built", fi.file, c.lineno, disc="starttask-before-stages")
+            rep.check(pset == ref, "C10.R6", "recovery and ContinueParentStage agree on when before-stages are complete", f"recovery: {sorted(pset) if pset else pset}; ContinueParentStage all_complete: {sorted(ref)}",
+                      helper.file, helper.node.lineno, disc="before-complete-agreement")
+
+
+def dominating_tests_raw(fn: ast.FunctionDef, target: ast.AST) -> list:
+    """like dominating_tests but keeps the test expressions"""
+    par = _parents(fn)
+    out = []
+    node = target
+    while id(node) in par:
+        p = par[id(node)]
+        if isinstance(p, ast.If):
+            if any(node is x for x in p.body):
+                out.append((p.test, True))
+            elif any(node is x for x in p.orelse):
+                out.append((p.test, False))
+        for fld in ("body", "orelse", "finalbody"):
+            blk = getattr(p, fld, None)
+            if isinstance(blk, list) and any(node is x for x in blk):
+                for s in blk:
+                    if s is node:
+                        break
+                    if isinstance(s, ast.If) and not s.orelse and s.body and isinstance(s.body[-1], (ast.Continue, ast.Return, ast.Raise)):
+                        out.append((s.test, False))
+        node = p
+        if node is fn:
+            break
+    return out
+
+
+def _implied_true(doms: list, atom: str) -> bool:
+    """do the dominating (test, truth) constraints force `atom` (text of a leaf) to be true? decided by truth table over the leaves"""
+    import itertools
+    leaves: list[str] = []
+
+    def collect(e):
+        if isinstance(e, ast.BoolOp):
+            for v in e.values:
+                collect(v)
+        elif isinstance(e, ast.UnaryOp) and isinstance(e.op, ast.Not):
+            collect(e.operand)
+        else:
+            t = norm(e)
+            if t not in leaves:
+                leaves.append(t)
+
+    for t, _ in doms:
+        collect(t)
+    if atom not in leaves or len(leaves) > 14:
+        return False
+
+    def ev(e, env):
+        if isinstance(e, ast.BoolOp):
+            vals = [ev(v, env) for v in e.values]
+            return all(vals) if isinstance(e.op, ast.And) else any(vals)
+        if isinstance(e, ast.UnaryOp) and isinstance(e.op, ast.Not):
+            return not ev(e.operand, env)
+        return env[norm(e)]
+
+    any_model = False
+    for bits in itertools.product([False, True], repeat=len(leaves)):
+        env = dict(zip(leaves, bits))
+        if all(ev(t, env) == truth for t, truth in doms):
+            any_model = True
+            if not env[atom]:
+                return False
+    return any_model
 
 
 def _stmt_of(fn: ast.FunctionDef, node: ast.AST) -> ast.AST:
